@@ -108,7 +108,7 @@ func runC18(t *testing.T, sci interface{}) *Outcome {
 		o.Harness = err.Error()
 		return o
 	}
-	model := map[string][]byte{} // raw storage key -> value (entity files are checked through the entity model)
+	model := map[string][]byte{}  // raw storage key -> value (entity files are checked through the entity model)
 	ents := map[string]entModel{} // name -> entity
 	fail := func(i int, sig, f string, a ...interface{}) *Outcome {
 		o.Violation = "C18:" + sig
